@@ -81,6 +81,14 @@ var genesisVariants = map[string]func(gs map[string]json.RawMessage, cdc codec.C
 		gs["did"] = cdc.MustMarshalJSON(&didtypes.GenesisState{Documents: bulkDIDs(newDidEnv(), 40)})
 	},
 	"aol-odd-owners": func(gs map[string]json.RawMessage, cdc codec.Codec) { c13Inject().mutate(gs, cdc) },
+	"aol-zero-timestamps": func(gs map[string]json.RawMessage, cdc codec.Codec) {
+		B, W := world.NewAccount("B"), world.NewAccount("W")
+		g := aoltypes.GenesisState{Owners: map[string]*aoltypes.Owner{B.Bech: {TotalTopics: 1}},
+			Topics:  map[string]*aoltypes.Topic{B.Bech + "/g": {TotalWriters: 1, TotalRecords: 1}},
+			Writers: map[string]*aoltypes.Writer{B.Bech + "/g/" + W.Bech: {Moniker: "w"}}, // nano_timestamp omitted
+			Records: map[string]*aoltypes.Record{B.Bech + "/g/0": {Key: []byte("k"), Value: []byte("v"), WriterAddress: W.Bech}}}
+		gs["aol"] = cdc.MustMarshalJSON(&g)
+	},
 	"pnft-mixed": func(gs map[string]json.RawMessage, cdc codec.Codec) {
 		A, B, W := world.NewAccount("A"), world.NewAccount("B"), world.NewAccount("W")
 		var g pnfttypes.GenesisState
